@@ -1,0 +1,195 @@
+//! Verification hooks, compiled only with the `verif-hooks` cargo feature (off by default).
+//!
+//! Nothing here changes the behaviour of existing code: the functions below only construct
+//! a [`HandshakeState`] from explicitly given parts (a struct literal, so that no value has to
+//! be moved out of a `Result`) and read back internal state for comparison with a reference
+//! model. They are used by the solver-based checks in `/verif`.
+
+#[cfg(not(feature = "std"))]
+use alloc::boxed::Box;
+use core::convert::TryFrom;
+
+use crate::{
+    cipherstate::{CipherState, CipherStates},
+    error::Error,
+    handshakestate::HandshakeState,
+    params::{HandshakeTokens, NoiseParams},
+    symmetricstate::SymmetricState,
+    types::{Cipher, Dh, Hash, Random},
+    utils::Toggle,
+};
+
+use crate::constants;
+
+/// `constants::MAXDHLEN`
+pub const MAXDHLEN: usize = constants::MAXDHLEN;
+/// `constants::MAXHASHLEN`
+pub const MAXHASHLEN: usize = constants::MAXHASHLEN;
+/// `constants::MAXBLOCKLEN`
+pub const MAXBLOCKLEN: usize = constants::MAXBLOCKLEN;
+/// `constants::MAXMSGLEN`
+pub const MAXMSGLEN: usize = constants::MAXMSGLEN;
+/// `constants::PSKLEN`
+pub const PSKLEN: usize = constants::PSKLEN;
+/// `constants::TAGLEN`
+pub const TAGLEN: usize = constants::TAGLEN;
+/// `constants::CIPHERKEYLEN`
+pub const CIPHERKEYLEN: usize = constants::CIPHERKEYLEN;
+
+/// Everything a `HandshakeState` consists of, given explicitly.
+#[allow(missing_docs)]
+pub struct HandshakeParts {
+    pub rng: Box<dyn Random>,
+    /// The handshake cipher object (its key, if any, is already set by the caller).
+    pub cipher: Box<dyn Cipher>,
+    pub cipher_nonce: u64,
+    pub cipher_has_key: bool,
+    pub hasher: Box<dyn Hash>,
+    pub h: [u8; MAXHASHLEN],
+    pub ck: [u8; MAXHASHLEN],
+    pub has_key: bool,
+    pub cipher_i: Box<dyn Cipher>,
+    pub cipher_r: Box<dyn Cipher>,
+    pub s: Box<dyn Dh>,
+    pub s_on: bool,
+    pub e: Box<dyn Dh>,
+    pub e_on: bool,
+    pub fixed_ephemeral: bool,
+    pub rs: [u8; MAXDHLEN],
+    pub rs_on: bool,
+    pub re: [u8; MAXDHLEN],
+    pub re_on: bool,
+    pub initiator: bool,
+    pub params: NoiseParams,
+    pub psks: [Option<[u8; PSKLEN]>; 10],
+    pub my_turn: bool,
+    pub pattern_position: usize,
+}
+
+/// Observable copy of a `HandshakeState`'s internal state.
+#[allow(missing_docs)]
+#[derive(Clone, Copy)]
+pub struct Snapshot {
+    pub h: [u8; MAXHASHLEN],
+    pub ck: [u8; MAXHASHLEN],
+    pub has_key: bool,
+    pub cipher_nonce: u64,
+    pub cipher_has_key: bool,
+    pub s_on: bool,
+    pub e_on: bool,
+    pub rs: [u8; MAXDHLEN],
+    pub rs_on: bool,
+    pub re: [u8; MAXDHLEN],
+    pub re_on: bool,
+    pub initiator: bool,
+    pub my_turn: bool,
+    pub pattern_position: usize,
+    pub pattern_len: usize,
+}
+
+fn toggle<T>(inner: T, on: bool) -> Toggle<T> {
+    if on {
+        Toggle::on(inner)
+    } else {
+        Toggle::off(inner)
+    }
+}
+
+/// Build a `HandshakeState` as a struct literal from the given parts. The message token table is
+/// the real one (`HandshakeTokens::try_from`); `None` if the pattern/modifier combination is invalid.
+#[must_use]
+pub fn handshake_from_parts(p: HandshakeParts) -> Option<HandshakeState> {
+    let message_patterns = match HandshakeTokens::try_from(&p.params.handshake) {
+        Ok(t) => t.msg_patterns,
+        Err(_) => return None,
+    };
+    let cipherstate = CipherState::verif_from_parts(p.cipher, p.cipher_nonce, p.cipher_has_key);
+    Some(HandshakeState {
+        rng: p.rng,
+        symmetricstate: SymmetricState::verif_from_parts(cipherstate, p.hasher, p.h, p.ck, p.has_key),
+        cipherstates: CipherStates(CipherState::new(p.cipher_i), CipherState::new(p.cipher_r)),
+        s: toggle(p.s, p.s_on),
+        e: toggle(p.e, p.e_on),
+        fixed_ephemeral: p.fixed_ephemeral,
+        rs: toggle(p.rs, p.rs_on),
+        re: toggle(p.re, p.re_on),
+        initiator: p.initiator,
+        params: p.params,
+        psks: p.psks,
+        #[cfg(feature = "hfs")]
+        kem: None,
+        #[cfg(feature = "hfs")]
+        kem_re: None,
+        my_turn: p.my_turn,
+        message_patterns,
+        pattern_position: p.pattern_position,
+    })
+}
+
+/// Forward to the real (crate-private) `HandshakeState::new`, exactly as `Builder::build` calls it.
+///
+/// # Errors
+/// Whatever `HandshakeState::new` returns.
+#[allow(clippy::too_many_arguments)]
+pub fn handshake_new(
+    rng: Box<dyn Random>,
+    cipher: Box<dyn Cipher>,
+    hasher: Box<dyn Hash>,
+    s: Box<dyn Dh>,
+    s_on: bool,
+    e: Box<dyn Dh>,
+    fixed_ephemeral: bool,
+    rs: [u8; MAXDHLEN],
+    rs_on: bool,
+    initiator: bool,
+    params: NoiseParams,
+    psks: &[Option<[u8; PSKLEN]>; 10],
+    prologue: &[u8],
+    cipher_i: Box<dyn Cipher>,
+    cipher_r: Box<dyn Cipher>,
+) -> Result<HandshakeState, Error> {
+    HandshakeState::new(
+        rng,
+        CipherState::new(cipher),
+        hasher,
+        toggle(s, s_on),
+        Toggle::off(e),
+        fixed_ephemeral,
+        toggle(rs, rs_on),
+        Toggle::off([0_u8; MAXDHLEN]),
+        initiator,
+        params,
+        psks,
+        prologue,
+        CipherStates::new(CipherState::new(cipher_i), CipherState::new(cipher_r))?,
+    )
+}
+
+/// Read back the internal state of a `HandshakeState`.
+#[must_use]
+pub fn snapshot(hs: &HandshakeState) -> Snapshot {
+    let (h, ck, has_key, cipher_nonce, cipher_has_key) = hs.symmetricstate.verif_parts();
+    Snapshot {
+        h,
+        ck,
+        has_key,
+        cipher_nonce,
+        cipher_has_key,
+        s_on: hs.s.is_on(),
+        e_on: hs.e.is_on(),
+        rs: *hs.rs,
+        rs_on: hs.rs.is_on(),
+        re: *hs.re,
+        re_on: hs.re.is_on(),
+        initiator: hs.initiator,
+        my_turn: hs.my_turn,
+        pattern_position: hs.pattern_position,
+        pattern_len: hs.message_patterns.len(),
+    }
+}
+
+/// Nonces of the two transport cipher states held by a `HandshakeState` (initiator-egress, responder-egress).
+#[must_use]
+pub fn split_nonces(hs: &HandshakeState) -> (u64, u64) {
+    (hs.cipherstates.0.nonce(), hs.cipherstates.1.nonce())
+}
